@@ -4,6 +4,7 @@ package rules
 
 import (
 	"fmt"
+	"os"
 	"go/token"
 	"sort"
 
@@ -50,6 +51,9 @@ func (c *Ctx) viewOf(f *ssa.Function) *ssa.Function {
 	if err != nil || v == nil {
 		c.L.Note("no inlined view of %s: %v", f, err)
 		return f
+	}
+	if d := os.Getenv("VERIF_DUMP_VIEW"); d != "" && d == f.Name() {
+		v.WriteTo(os.Stderr)
 	}
 	if names := c.views.Inlined[v]; len(names) > 0 {
 		c.L.Note("inlined view of %s expands %v", f, dedupe(names))
